@@ -146,6 +146,7 @@ PROPERTIES['C09'] = {
         ('64', 'numprop4_runs2', (16, 12, 0, 0, 3, 2, 24, 2, 4, 0), 'x', 4),       # out of memory at 30 GB
         ('64', 'anyprop_flags', (16, 12, 0, 0, 0, 1, 0, 1, 0, 0), 'x', None),       # out of memory at 30 GB
         ('64', 'tangents', (12, 12, 0, 0, 0, 0, 0, 0, 0, 48), 'q', 3),  # ~1000 s
+        ('64', 'merge1', (12, 12, 1, 1, 0, 0, 0, 0, 0, 0), 'x', 3),                 # out of memory at 30 GB (symbolic prop2vert indexing)
         ('64', 'runs_3_2_full', (12, 12, 0, 0, 3, 2, 24, 2, 4, 0), 'x', 3))        # out of memory at 30 GB
     ] + [
       dict(name='makeempty', harness='c09_ingest.cpp', entry='h_makeempty', defs={'VF_REAL_MAKEEMPTY': 1, 'VF_LENS': '0,0,0,0,0,0,0,0,0,0'}, models=['rbtree.h'], unwind={'default': 7, 'Rb_tree': 3}, recursion={'default': 2}, backends=['minisat'], timeout=900, object_bits=12, mem_gb=16,
